@@ -10,7 +10,7 @@ PROP = "C07"
 NEED_JSONSCHEMA = True
 SHARDS = {"quick": 8, "thorough": 16}
 TIME_CAP = {"quick": 70, "thorough": 900}
-REQUIRED = ["conversion_graphs", "conversion_agreement_checks", "validated", "programs", "settings:exclude_defaults", "settings:exclude_none", "settings:both", "settings:none", "declared_key_checks", "required_key_checks",
+REQUIRED = ["directed_shape_programs", "conversion_graphs", "conversion_agreement_checks", "validated", "programs", "settings:exclude_defaults", "settings:exclude_none", "settings:both", "settings:none", "declared_key_checks", "required_key_checks",
             "method_in_schema_checks", "init_false_in_schema_checks", "aliaser_programs", "additional_properties_programs", "discriminated_families", "discriminated_serialized_validations"]
 RULE = ("C04 program / value space (classes without unset-tracking, or exclude_unset=False) x the four combinations of the global settings.serialization.exclude_defaults / "
         "exclude_none x aliaser x additional_properties. A case = (type signature, settings, value repr); distinct by hash; non-trivial when the value is an object or container.")
@@ -209,6 +209,23 @@ def run(env):
     convfam.run_family(env, 'serialize', env.n(480, 12000))  # conversion graphs under every placement (registered / default_conversion / dynamic / field)
     harness.tag_errors(False)
     rng = env.rng
+    for i, (label, build) in enumerate(gen_types.directed_shapes()):
+        if i % env.nshards != env.shard:
+            continue
+        t = build(gen_types.Gen(rng, max_depth=2, feats=FEATS))
+        if props_constraint_on_object(t) or label == "dependent-required":
+            continue  # (same abstention as below; dependent_required is an input-side rule: not generated for C07)
+        prog = Program(t)
+        try:
+            prog.load()
+        except Exception:
+            env.count("program_load_failed")
+            continue
+        try:
+            check_program(env, prog, "directed:" + label, ndata=8)
+            env.count("directed_shape_programs")
+        finally:
+            prog.unload()
     n = env.n(1400, 30000)
     small = [b for _, b in gen_types.enumerate_small(depth2=False)]
     for j in range(n):
